@@ -65,7 +65,7 @@ class Tok(object):
 
 _WORD_START = re.compile(r'[A-Za-z_]')
 _WORD = re.compile(r'[A-Za-z_][A-Za-z0-9_$#]*')
-_NUM = re.compile(r'(?:\d+\.?\d*|\.\d+)(?:[eE][+-]?\d+)?')
+_NUM = re.compile(r'(?:[0-9]+\.?[0-9]*|\.[0-9]+)(?:[eE][+-]?[0-9]+)?')
 _OPS3 = ('#>>',)
 _OPS2 = ('||', '<>', '<=', '>=', '!=', '::', '#>', '->', '==', '<<', '>>')
 
@@ -230,13 +230,13 @@ def lex(dialect, s, style=None):
                     continue
             # ---- native placeholders (which forms exist depends on the driver's parameter style)
             if c == '?' and (style == 'qmark' or dialect == 'sqlite'):
-                m = re.compile(r'\?(\d*)').match(s, i)
+                m = re.compile(r'\?([0-9]*)').match(s, i)
                 toks.append(Tok('ph', m.group(0), ('q', qmarks if not m.group(1) else int(m.group(1)) - 1), i))
                 qmarks += 1
                 i = m.end()
                 continue
             if c == ':' and i + 1 < n and not s.startswith('::', i) and (style in ('numeric', 'named') or dialect == 'sqlite'):
-                m = re.compile(r':(\d+|[A-Za-z_][A-Za-z0-9_]*)').match(s, i)
+                m = re.compile(r':([0-9]+|[A-Za-z_][A-Za-z0-9_]*)').match(s, i)
                 if m:
                     name = m.group(1)
                     toks.append(Tok('ph', m.group(0), ('n', int(name)) if name.isdigit() else ('k', name), i))
@@ -249,7 +249,7 @@ def lex(dialect, s, style=None):
                     i = m.end()
                     continue
             # ---- numbers, words, operators
-            if c.isdigit() or (c == '.' and i + 1 < n and s[i + 1].isdigit()):
+            if '0' <= c <= '9' or (c == '.' and i + 1 < n and '0' <= s[i + 1] <= '9'):
                 if dialect == 'mysql' and s.startswith('0x', i):
                     m = re.compile(r'0x((?:[0-9A-Fa-f]{2})+)').match(s, i)
                     if m:
@@ -451,10 +451,10 @@ class Unit(object):
         return 'Unit(%s %r)' % (self.kind, self.value)
 
 
-_DATE_RE = re.compile(r'^(\d{4})-(\d{2})-(\d{2})$')
-_TS_RE = re.compile(r'^(\d{4})-(\d{2})-(\d{2}) (\d{2}):(\d{2}):(\d{2})(?:\.(\d{1,9}))?$')
-_TIME_RE = re.compile(r'^(\d{2}):(\d{2}):(\d{2})(?:\.(\d{1,9}))?$')
-_IV_RE = re.compile(r'^([+-]?)(\d+):(\d{1,2}):(\d{1,2})(?:\.(\d+))?$')
+_DATE_RE = re.compile(r'^([0-9]{4})-([0-9]{2})-([0-9]{2})$')
+_TS_RE = re.compile(r'^([0-9]{4})-([0-9]{2})-([0-9]{2}) ([0-9]{2}):([0-9]{2}):([0-9]{2})(?:\.([0-9]{1,9}))?$')
+_TIME_RE = re.compile(r'^([0-9]{2}):([0-9]{2}):([0-9]{2})(?:\.([0-9]{1,9}))?$')
+_IV_RE = re.compile(r'^([+-]?)([0-9]+):([0-9]{1,2}):([0-9]{1,2})(?:\.([0-9]+))?$')
 
 
 def parse_date(text):
@@ -567,6 +567,15 @@ def units(dialect, toks):
                 out.append(Unit('bad', None, i, j, str(e)))
             i = j
             continue
+        if t.kind == 'str' and dialect == 'postgres' and i + 2 < n and toks[i + 1].kind == 'op' and toks[i + 1].text == '::' \
+                and toks[i + 2].kind == 'word' and toks[i + 2].text == 'BYTEA':
+            # PostgreSQL 8.4.1 "bytea hex format": the string \x followed by two hex digits per byte, cast to bytea
+            if re.match(r'^\\x(?:[0-9A-Fa-f]{2})*$', t.value):
+                out.append(Unit('bytes', bytes(bytearray.fromhex(t.value[2:])), i, i + 3))
+            else:
+                out.append(Unit('bad', None, i, i + 3, 'bytea input %r is not in hex format' % t.value))
+            i += 3
+            continue
         if t.kind == 'str':
             out.append(Unit('str', t.value, i, i + 1))
         elif t.kind == 'hex':
@@ -675,7 +684,7 @@ def denotes(dialect, unit, v):
             return 'is a %s literal, not an INTERVAL literal' % unit.kind
         return None if unit.value == v else 'denotes %r' % unit.value
     if isinstance(v, int):
-        if unit.kind != 'num' or not re.match(r'^-?\d+$', unit.value):
+        if unit.kind != 'num' or not re.match(r'^-?[0-9]+$', unit.value):
             return 'is not an integer literal (%s %r)' % (unit.kind, unit.value)
         return None if int(unit.value) == v else 'denotes %s' % unit.value
     if isinstance(v, float):
@@ -737,7 +746,7 @@ def like_decode(dialect, pattern, escape):
 def like_expected(op, needle):
     lits = [('lit', ch) for ch in needle]
     if op in ('contains', 'not_contains'):
-        return ['ANY'] + lits + ['ANY']
+        return ['ANY'] + lits + ['ANY'] if lits else ['ANY']
     if op == 'startswith':
         return lits + ['ANY']
     if op == 'endswith':
